@@ -5,6 +5,8 @@ package verifx
 import (
 	"encoding/json"
 	"fmt"
+	"os"
+	"path/filepath"
 	"strings"
 	"time"
 
@@ -94,12 +96,13 @@ func c03Confs(tier string) []c03Conf {
 func init() {
 	Register(Meta{
 		ID: "C03", Level: "exploration",
-		Rule:        "every profile with k<=K minCount validations, each listed under any subset of {violation,warning,info}, x undefined extra names per level x empty-level spelling x profile-name spelling; evaluated on the 2^k truth-table graph and on a graph with no target node under 15 report configurations (dateCreated flag x schema IRIs x 4 clocks). Non-trivial = profile whose expected report has at least one result and whose expected severities are not all Violation, or that has no result at all on the no-target graph (both conforms values occur); distinct by profile text.",
+		Rule:        "every profile with k<=K minCount validations, each listed under any subset of {violation,warning,info}, x undefined extra names per level x empty-level spelling x profile-name spelling; evaluated on the 2^k truth-table graph and on a graph with no target node under 15 report configurations (dateCreated flag x schema IRIs x 4 clocks); plus the reports the built command line tool leaves in one output file after every ordered pair of {violations+warnings, warnings only, no results} (absent file / longer junk first) and prints. Non-trivial = profile whose expected report has at least one result and whose expected severities are not all Violation, or that has no result at all on the no-target graph (both conforms values occur); distinct by profile text.",
 		Assumptions: []string{"atomic constraint minCount 1 behaves as 'has a value' (checked separately by C01 atom catalogue)"},
 	}, c03Gen, c03Run)
 }
 
 func c03Gen(tier string, emit func(c03Case)) {
+	emit(c03Case{Name: "__cli__"})
 	maxK := 2
 	if tier == "thorough" {
 		maxK = 3
@@ -152,7 +155,99 @@ func c03Strip(text string) (string, error) {
 	return string(b), nil
 }
 
+// c03RunCLI: the report the command line tool leaves in an output file (and prints) obeys the same rules, whatever the
+// file held before: every ordered pair of {many violations+warnings, warnings only, no results} written to one path,
+// from an absent file and over longer junk.
+func c03RunCLI(c *Ctx) {
+	if os.Getenv("VERIF_ACV") == "" {
+		panic("harness: VERIF_ACV not set (C03 cli family needs the built command line tool)")
+	}
+	dir, err := os.MkdirTemp(os.Getenv("VERIF_WORK"), "c03cli")
+	if err != nil {
+		panic("harness: " + err.Error())
+	}
+	defer os.RemoveAll(dir)
+	prof := c03Profile(c03Case{K: 2, Levels: []int{1, 2}, Name: "cli"})
+	long := &Graph{}
+	for r := 0; r < 10; r++ {
+		for _, n := range TruthTableGraph(2, false).Nodes {
+			cp := long.Add(fmt.Sprintf("%s-r%d", n.ID, r), n.Types...)
+			cp.Props = n.Props
+		}
+	}
+	warn := &Graph{}
+	warn.Add(nid(0), EX+"T").P(EX+"p1", "v")
+	none := &Graph{}
+	none.Add(nid(0), EX+"U")
+	graphs := []*Graph{long, warn, none}
+	names := []string{"violations+warnings", "warnings only", "no results"}
+	var want []*Report
+	os.WriteFile(filepath.Join(dir, "p.yaml"), []byte(prof), 0o644)
+	for i, g := range graphs {
+		os.WriteFile(filepath.Join(dir, fmt.Sprintf("d%d.jsonld", i)), []byte(g.FlatJSONLD()), 0o644)
+		r := Validate(prof, g.FlatJSONLD())
+		rep, err := ParseReport(r.Report)
+		if r.Err != nil || r.Panic != nil || err != nil {
+			c.Violate("C03 cli family: the library rejects the input: "+firstLine(r.ErrString()), prof, nil)
+			return
+		}
+		want = append(want, rep)
+	}
+	if want[0].Conforms || !want[1].Conforms || len(want[1].Results) == 0 || want[2].HasResult {
+		panic("harness: C03 cli family inputs do not have the intended verdicts")
+	}
+	check := func(where, text string, d int) {
+		rep, err := ParseReport(strings.TrimSpace(text))
+		if err != nil {
+			c.Violate("C03 the report left by the command line tool cannot be read [cli]", fmt.Sprintf("%s: %v\nstarts: %s", where, err, tailStr(text, 400)), nil)
+			return
+		}
+		viol := false
+		for _, r := range rep.Results {
+			viol = viol || shortSev(r.Severity) == "Violation"
+		}
+		if rep.Conforms == viol || rep.HasResult != (len(rep.Results) > 0) || rep.Verdict() != want[d].Verdict() || rep.ProfileName != want[d].ProfileName {
+			c.Violate("C03 the report left by the command line tool differs from the library's [cli]", fmt.Sprintf("%s\nlibrary: %s\ncli:     %s", where, tailStr(want[d].Verdict(), 500), tailStr(rep.Verdict(), 500)), nil)
+		}
+	}
+	out := filepath.Join(dir, "out.json")
+	for _, junk := range []bool{false, true} {
+		for a := 0; a < 3; a++ {
+			for b := 0; b < 3; b++ {
+				os.Remove(out)
+				hist := ""
+				if junk {
+					os.WriteFile(out, []byte(strings.Repeat("{\"conforms\": false, \"junk\": true}\n", 20000)), 0o644)
+					hist = "junk, "
+				}
+				for _, d := range []int{a, b} {
+					hist += names[d] + ", "
+					r := c18Exec(dir, "validate", "p.yaml", fmt.Sprintf("d%d.jsonld", d), "out.json")
+					c.Eval(1)
+					text, _ := os.ReadFile(out)
+					if r.exit != 0 {
+						c.Violate("C03 the command line tool fails on valid input [cli]", fmt.Sprintf("runs: %s exit=%d", hist, r.exit), nil)
+						continue
+					}
+					check("output file after the runs: "+hist, string(text), d)
+				}
+			}
+		}
+	}
+	for d := range graphs {
+		r := c18Exec(dir, "validate", "p.yaml", fmt.Sprintf("d%d.jsonld", d))
+		c.Eval(1)
+		check("stdout for "+names[d], r.stdout, d)
+	}
+	c.Outcome("cli family")
+	c.Nontrivial("cli")
+}
+
 func c03Run(c *Ctx, cs c03Case) {
+	if cs.Name == "__cli__" {
+		c03RunCLI(c)
+		return
+	}
 	prof := c03Profile(cs)
 	q, cr := Compile(prof)
 	if cr.Panic != nil || cr.Err != nil {
